@@ -8,12 +8,16 @@ RULE = ("each case is a directory tree (update dir, an outside area, prefix-name
         "configuration and 4-10 requests whose `file` value comes from a path grammar (known good / known escaping templates, "
         "random segments, '..', '.', '//', trailing slash, absolute, NUL, bad UTF-8) under random percent-encoding; a case is "
         "non-trivial when some request is accepted through '..', a symlink or an encoded byte, or is rejected because its "
-        "resolved location is outside the directory; distinct = distinct case text")
+        "resolved location is outside the directory, or when the tree changed between two requests and the same request got "
+        "different answers before and after; a third of the cases are HISTORIES: tree operations (re-point a symlink - "
+        "also the one that is update_path or a component of it -, remove, rename, replace a directory, create files and links) "
+        "applied to the real directory between requests to ONE long-lived Processor; distinct = distinct case text")
 TRUSTED_BASE = [
     "Coq 8.16.1 kernel (coqc; coqchk in thorough); no native_compute",
     "extraction with ExtrOcamlBasic only; OCaml driver oracle/{conv,eng_c20,oracle}.ml (builds the Coq tree term from the case line)",
     "Rust harness /verif/harness (engine c20) over rotonda::verif::mrt (feature verif-hooks): real api::Processor, real "
-    "std::fs::canonicalize on a real directory tree under .cache/c20fs, capturing queue",
+    "std::fs::canonicalize on a real directory tree under .cache/c20fs that is changed (symlink/rename/remove_dir_all) between "
+    "requests to one long-lived Processor, capturing queue",
     "modelled, not verified: src/units/mrt_file_in/api.rs, get_param/extract_params/decoded_path of src/http.rs, "
     "url::form_urlencoded::parse, PathBuf::push / Path::ancestors / Path::is_relative, glibc realpath(3) (symlink budget 40)",
 ]
@@ -22,7 +26,9 @@ ASSUMPTIONS = [
     "directories, no mount points, no permissions, PATH_MAX/NAME_MAX not reached); tied to the real libc on every run",
     "names in the tree are ASCII: the lossy UTF-8 conversion of the decoded parameter never creates or removes an ASCII byte, "
     "so a non-ASCII component can only fail to exist",
-    "the file system does not change between the endpoint's canonicalize and the unit's later File::open (TOCTOU is outside the model)",
+    "the tree changes BETWEEN requests (any number of times, any of the modelled operations), not during one: the window between "
+    "the two canonicalize calls of one request, and between them and the unit's later File::open, is outside the model (TOCTOU)",
+    "the working directory of the process and its ancestors are not renamed, removed or replaced while the unit runs",
     "the unit keeps the receiving end of its queue open; what it answers on the oneshot is a parameter of the request",
 ]
 
@@ -131,6 +137,24 @@ def gen_query(rng):
             "wrongname": "File=" + v}[k]
 
 
+# tree changes between requests on the template tree (each entry: ops carried out together)
+MUT = [
+    ["P ulnk out"], ["P ulnk upd/sub"], ["P ulnk2 @/out/"], ["P ulnk upd2"], ["P ulnk nowhere"], ["P ulnk upd"],
+    ["M upd updold", "D upd", "F upd/a.mrt"], ["M upd updold", "D upd", "F upd/fresh.mrt"], ["X upd", "L upd out"],
+    ["X upd", "D upd"], ["M upd updold", "L upd updold"], ["M upd updold", "L upd @/out"], ["M out upd/out"], ["M upd out/upd"],
+    ["X upd/a.mrt"], ["F upd/new.mrt"], ["X upd/sub"], ["M upd/sub upd/sub2"], ["M out/secret upd/secret"],
+    ["M upd/a.mrt out/a.mrt"], ["M upd/sub out/sub"], ["X upd/a.mrt", "L upd/a.mrt ../out/secret"], ["X upd/sub", "L upd/sub ../out"],
+    ["P upd/in ../out/secret"], ["P upd/esc sub"], ["P upd/escabs @/upd/sub"], ["P upd/inabs @/out"], ["P upd/dang a.mrt"],
+    ["P upd/dotdot ."], ["P upd/c0 ../out/secret"], ["P upd/c0 sub/b.mrt"], ["P out/back ../upd/sub"], ["P upd/sib sub"],
+    ["X upd/esc", "D upd/esc", "F upd/esc/secret"], ["L upd/new ../out"], ["L upd/new2 sub"], ["X upd/in"], ["X out/back"],
+    ["X out"], ["M out out2", "D out", "D out/back", "F out/back/a.mrt"], ["F out/nowhere"], ["D upd/nosuch", "F upd/nosuch/x"],
+]
+
+
+def gen_mutation(rng):
+    return list(rng.choice(MUT))
+
+
 def gen_case(rng, k, root):
     ops = ["R %s/%s" % (root, k)] + list(BASE)
     for e in EXTRA:
@@ -148,14 +172,95 @@ def gen_case(rng, k, root):
         if rng.chance(60):
             ops.append(l)
     ops.append("U " + rng.weighted(UPD))
+    moving = rng.chance(30)             # the tree changes under the running processor
+    asked = []
     for _ in range(rng.range(4, 10)):
         if rng.chance(6):
             ops.append("U " + rng.weighted(UPD))
+        if moving and rng.chance(35):
+            ops += gen_mutation(rng)
+            if asked and rng.chance(70):
+                ops.append(rng.choice(asked))      # the same request again, after the change
         m = rng.weighted([("GET", 94), ("POST", 3), ("HEAD", 2), ("PUT", 1)])
         q = gen_query(rng)
         if chain and rng.chance(50):
             q = "file=c%d" % rng.range(36, chain - 1)
         ops.append("Q %s %s %s %s" % (m, rng.weighted(PATHS), q, rng.weighted([("o", 80), ("e", 7), ("d", 6), ("s", 7)])))
+        asked.append(ops[-1])
+    return ";".join(ops)
+
+
+# ------------------------------------------------------------------ histories: the deployment layouts whose resolution moves
+def _q(v, mode="o"):
+    return "Q GET /mrt/u/queue file=%s %s" % (v, mode)
+
+
+LAYOUTS = [
+    # `current -> dated directory`, update_path IS the link
+    dict(tree=["D day1", "F day1/one.mrt", "D day2", "F day2/two.mrt", "D day3", "F day3/three.mrt", "F day3/one.mrt", "L current day1"],
+         upd=["@/current", "@/current/", "current", "@/./current/.", "@/day1/../current"],
+         files=["one.mrt", "two.mrt", "three.mrt", "../day1/one.mrt", "../day2/two.mrt", "../day3/one.mrt", "", ".", "..", "nosuch"],
+         mut=[["P current day2"], ["P current day3"], ["P current day1"], ["P current @/day2"], ["P current day2/"], ["P current ./day3/."],
+              ["P current nowhere"], ["P current ."], ["X current", "L current day2"], ["X current", "D current", "F current/one.mrt"],
+              ["M current prev", "L current day3"], ["M day1 day1.old", "D day1", "F day1/fresh.mrt"], ["X day1"], ["F day2/one.mrt"],
+              ["X day3/one.mrt"], ["M day2/two.mrt day1/two.mrt"], ["X current"], ["L current day2"]]),
+    # update_path goes THROUGH a link: releases/current -> v1, update_path = releases/current/inbox
+    dict(tree=["D rel", "D rel/v1", "D rel/v1/inbox", "F rel/v1/inbox/a.mrt", "D rel/v2", "D rel/v2/inbox", "F rel/v2/inbox/b.mrt",
+               "F rel/v2/inbox/a.mrt", "D rel/v1/other", "F rel/v1/other/o.mrt", "L rel/cur v1", "L live rel/cur"],
+         upd=["@/rel/cur/inbox", "@/live/inbox", "@/live/inbox/", "rel/cur/inbox", "@/rel/cur/other/../inbox"],
+         files=["a.mrt", "b.mrt", "../other/o.mrt", "../../v1/inbox/a.mrt", "../../v2/inbox/b.mrt", "", "../inbox/a.mrt", "nosuch"],
+         mut=[["P rel/cur v2"], ["P rel/cur v1"], ["P rel/cur @/rel/v2"], ["P live rel/v2"], ["P live rel/v1"], ["P live rel/cur"],
+              ["P rel/cur nowhere"], ["M rel/v1 rel/v1.old", "M rel/v2 rel/v1"], ["X rel/v1/inbox", "L rel/v1/inbox ../v2/inbox"],
+              ["X rel/v1/inbox", "L rel/v1/inbox other"], ["M rel/v1/inbox rel/v1/inbox.old", "D rel/v1/inbox", "F rel/v1/inbox/b.mrt"],
+              ["X live", "D live", "D live/inbox", "F live/inbox/a.mrt"], ["M rel rel.old", "D rel", "L rel/cur ../rel.old/v2"],
+              ["X rel/v2/inbox/a.mrt"], ["F rel/v1/inbox/b.mrt"]]),
+    # a plain directory that is moved away and replaced
+    dict(tree=["D spool", "F spool/a.mrt", "D spool/in", "F spool/in/b.mrt", "D archive", "F archive/old.mrt", "D priv", "F priv/key"],
+         upd=["@/spool", "@/spool/", "spool", "@/spool/in/..", "@/spool/in"],
+         files=["a.mrt", "in/b.mrt", "b.mrt", "new.mrt", "key", "old.mrt", "../archive/old.mrt", "../priv/key", "../spool.1/a.mrt", "", "in", ".."],
+         mut=[["M spool spool.1", "D spool", "F spool/new.mrt"], ["M spool spool.1", "L spool priv"], ["M spool spool.1", "L spool spool.1"],
+              ["M spool spool.1", "L spool archive"], ["X spool", "D spool"], ["X spool"], ["X spool", "F spool"], ["M spool spool.1"],
+              ["M spool.1 spool"], ["X spool/in", "L spool/in ../priv"], ["X spool/in", "L spool/in ../archive"], ["M priv spool/in2"],
+              ["M spool/in archive/in"], ["M archive/old.mrt spool/old.mrt"], ["F spool/new.mrt"], ["X spool/a.mrt"],
+              ["X spool/a.mrt", "L spool/a.mrt ../priv/key"]]),
+    # the unit is started before its directory exists, or while a component is still missing
+    dict(tree=["D real", "D real/dir", "F real/dir/f.mrt", "D other", "D other/dir", "F other/dir/g.mrt"],
+         upd=["@/late/dir", "@/lnk/dir", "@/lnk/dir/", "lnk/dir", "@/late"],
+         files=["f.mrt", "g.mrt", "../../other/dir/g.mrt", "../../real/dir/f.mrt", "", "x.mrt", "dir/f.mrt"],
+         mut=[["L lnk real"], ["L lnk other"], ["P lnk other"], ["P lnk real"], ["D late", "D late/dir", "F late/dir/f.mrt"], ["L late real"],
+              ["L late other"], ["P late real"], ["X late"], ["X lnk"], ["M real late"], ["M late real"], ["M other late"], ["F late/x.mrt"],
+              ["F real/dir/x.mrt"]]),
+]
+
+
+def gen_history_case(rng, k, root):
+    """a long-lived processor over a tree whose resolution of update_path moves"""
+    lay = rng.choice(LAYOUTS)
+    ops = ["R %s/%s" % (root, k)]
+    start_first = rng.chance(15)            # Processor::new before the tree exists
+    if start_first:
+        ops.append("U " + rng.choice(lay["upd"]))
+    ops += lay["tree"]
+    if rng.chance(25):
+        ops += rng.choice(lay["mut"])
+    if not start_first:
+        ops.append("U " + rng.choice(lay["upd"]))
+    asked = []
+    for _ in range(rng.range(6, 16)):
+        r = rng.below(100)
+        if r < 30:
+            ops += rng.choice(lay["mut"])
+            for a in asked[-3:]:
+                if rng.chance(60):
+                    ops.append(a)               # the same requests again, after the change
+        elif r < 34:
+            ops.append("U " + rng.choice(lay["upd"] + ["-"]))   # the unit is restarted
+        else:
+            v = rng.choice(lay["files"])
+            if rng.chance(15):
+                v = rng.choice(["./", "x/../", "nosuch/../"]) + v
+            ops.append(_q(enc_value(rng, v, rng.choice([0, 0, 0, 30])), rng.weighted([("o", 88), ("e", 4), ("d", 4), ("s", 4)])))
+            asked.append(ops[-1])
     return ";".join(ops)
 
 
@@ -192,13 +297,33 @@ def gen_random_case(rng, k, root):
     ops.append("U " + rng.weighted([("@/" + rng.choice(dirs[1:] or every), 50), ("@/" + rng.choice(every), 25),
                                     ("@/" + rng.choice(dirs[1:] or every) + "/" + rand_path(rng, 1, 2), 10),
                                     ("@", 5), (rng.choice(every), 7), ("-", 3)]))
+    moving = rng.chance(40)
+    asked = []
     for _ in range(rng.range(5, 12)):
+        if moving and rng.chance(40):
+            # a change the generator knows nothing about: whether it applies, and what it does to the answers, is the engines' business
+            kind = rng.below(6)
+            pth = lambda: "/".join(rng.choice(RNAMES) for _ in range(rng.range(1, 3)))
+            tgt = lambda: rng.weighted([("", 62), ("@/", 28), ("/", 10)]) + (rand_path(rng, 1, 4).strip("/") or ".")
+            if kind <= 1:
+                ops.append("P %s %s" % (rng.choice(every) if rng.chance(70) else pth(), tgt()))
+            elif kind == 2:
+                ops.append("X %s" % (rng.choice(every) if rng.chance(70) else pth()))
+            elif kind == 3:
+                ops.append("M %s %s" % (rng.choice(every) if rng.chance(70) else pth(), pth()))
+            elif kind == 4:
+                ops.append("L %s %s" % (pth(), tgt()))
+            else:
+                ops.append("%s %s" % (rng.choice("DF"), pth()))
+            if asked and rng.chance(60):
+                ops.append(rng.choice(asked))
         v = rand_path(rng, 1, 5)
         if rng.chance(10):
             v = "@/" + v
         if rng.chance(8):
             v += "/"
         ops.append("Q GET /mrt/u/queue file=%s %s" % (enc_value(rng, v, rng.choice([0, 0, 0, 30])), rng.weighted([("o", 90), ("e", 5), ("s", 5)])))
+        asked.append(ops[-1])
     return ";".join(ops)
 
 
@@ -208,6 +333,8 @@ def gen(rng, tier):
     for i in range(n):
         if i % 3 == 2:
             yield gen_random_case(rng, "g%d" % i, root)
+        elif i % 3 == 1:
+            yield gen_history_case(rng, "g%d" % i, root)
         else:
             yield gen_case(rng, "g%d" % i, root)
 
@@ -221,9 +348,32 @@ def _results(out):
     return [(t[i], t[i + 1], t[i + 2]) for i in range(0, len(t) - 2, 3)]
 
 
+_TREEOP = re.compile(r"^[DFLPXM] ")
+
+
+def _answer_changed(case, out):
+    """some request text occurs twice with a tree change in between and got different answers"""
+    rs = _results(out)
+    seen, i, changed = {}, 0, False
+    for o in case.split(";"):
+        if o.startswith("Q "):
+            if i < len(rs):
+                prev = seen.get(o)
+                if prev is not None and prev[1] and prev[0] != rs[i][:2]:
+                    changed = True
+                seen[o] = [rs[i][:2], False]
+            i += 1
+        elif _TREEOP.match(o) and seen:
+            for v in seen.values():
+                v[1] = True
+    return changed
+
+
 def nontrivial(case, out):
     qs = [o for o in case.split(";") if o.startswith("Q ")]
     rs = _results(out)
+    if _answer_changed(case, out):
+        return True
     for q, (st, enq, why) in zip(qs, rs):
         if why.endswith(":9>"):
             return True
@@ -247,9 +397,25 @@ def classify(case, out):
             ks.add("enqueued-outside-scratch-root")
         if enq != "-":
             ks.add("enqueued-text-canonical" if all(e.endswith(":c") for e in enq.split(",")) else "enqueued-text-NOT-canonical")
+    ops = case.split(";")
+    firstq = next((i for i, o in enumerate(ops) if o.startswith("Q ")), len(ops))
+    later = [o for o in ops[firstq:] if _TREEOP.match(o)]
+    if later:
+        ks.add("history:tree-changes-between-requests")
+        if any(o.startswith("P ") for o in later):
+            ks.add("history:link-repointed")
+        if any(o.startswith("M ") for o in later):
+            ks.add("history:renamed")
+        if any(o.startswith("X ") for o in later):
+            ks.add("history:removed")
+        if _answer_changed(case, out):
+            ks.add("history:same-request-different-answer")
+    firstu = next((i for i, o in enumerate(ops) if o.startswith("U ")), len(ops))
+    if any(_TREEOP.match(o) for o in ops[firstu:firstq]):
+        ks.add("history:processor-built-before-tree-complete")
     if re.search(r"L upd/c4\d", case):
         ks.add("tree:chain>40")
-    ks.add("tree:random" if ";D upd;" not in case else "tree:template")
+    ks.add("tree:template" if ";D upd;" in case else "tree:layout" if re.search(r";D (day1|rel|spool|real);", case) else "tree:random")
     return sorted(ks)
 
 
@@ -258,7 +424,39 @@ def corpus():
     t = ";".join(BASE + ["D upd2", "F upd2/x", "D upd-evil", "F upd-evil/x"] + LINKS)
     q = lambda v, m="o": "Q GET /mrt/u/queue file=%s %s" % (v, m)
     chain = ";".join("L upd/k%d %s" % (i, "a.mrt" if i == 0 else "k%d" % (i - 1)) for i in range(43))
-    return [
+    day = "D day1;F day1/one.mrt;D day2;F day2/two.mrt;L current day1"
+    hist = [
+        # the `current -> dated dir` layout re-pointed mid-history (seed C20-b1's demonstration): before, one.mrt is inside and
+        # two.mrt is not; after, the other way round, and the old directory is only reachable by climbing out
+        "R %s/h0;%s;U @/current;%s;%s;P current day2;%s;%s;%s;P current day1;%s;%s" % (
+            root, day, q("one.mrt"), q("two.mrt"), q("one.mrt"), q("../day1/one.mrt"), q("two.mrt"), q("one.mrt"), q("two.mrt")),
+        # the same through remove + symlink, link replaced by a real directory, link gone, link back
+        "R %s/h1;%s;U @/current/;%s;X current;L current day2;%s;%s;X current;D current;F current/one.mrt;%s;%s;X current;%s;L current day1;%s" % (
+            root, day, q("one.mrt"), q("one.mrt"), q("two.mrt"), q("one.mrt"), q("two.mrt"), q("one.mrt"), q("one.mrt")),
+        # update_path THROUGH a link (rel/cur -> v1, and live -> rel/cur), re-pointed at either level
+        "R %s/h2;D rel;D rel/v1;D rel/v1/inbox;F rel/v1/inbox/a.mrt;D rel/v2;D rel/v2/inbox;F rel/v2/inbox/b.mrt;L rel/cur v1;L live rel/cur;"
+        "U @/live/inbox;%s;%s;P rel/cur v2;%s;%s;%s;P live rel/v1;%s;%s" % (
+            root, q("a.mrt"), q("b.mrt"), q("a.mrt"), q("b.mrt"), q("../../v1/inbox/a.mrt"), q("a.mrt"), q("b.mrt")),
+        # a plain directory moved away and replaced by a new one / by a link to a private area / by a link to its old self
+        "R %s/h3;D spool;F spool/a.mrt;D priv;F priv/key;U @/spool;%s;M spool spool.1;D spool;F spool/new.mrt;%s;%s;%s;"
+        "X spool;L spool priv;%s;%s;X spool;L spool spool.1;%s;%s" % (
+            root, q("a.mrt"), q("a.mrt"), q("new.mrt"), q("../spool.1/a.mrt"), q("key"), q("a.mrt"), q("a.mrt"), q("key")),
+        # files and links come and go inside a directory that stays: created file accepted, removed file refused, an inside link
+        # re-pointed outside, a sub-directory replaced by a link to outside
+        "R %s/h4;%s;U @/upd;%s;F upd/new.mrt;%s;X upd/a.mrt;%s;%s;P upd/in ../out/secret;%s;%s;X upd/sub;L upd/sub ../out;%s;%s;P upd/esc sub/..;%s" % (
+            root, t, q("new.mrt"), q("new.mrt"), q("a.mrt"), q("in"), q("in"), q("sub/b.mrt"), q("sub/b.mrt"), q("sub/secret"), q("esc/a.mrt")),
+        # the processor is built BEFORE its directory exists, behind a component that is a link made later, then re-pointed
+        "R %s/h5;U @/lnk/dir;%s;D real;D real/dir;F real/dir/f.mrt;D other;D other/dir;F other/dir/g.mrt;%s;L lnk real;%s;%s;P lnk other;%s;%s;"
+        "U @/lnk/dir;%s" % (root, q("f.mrt"), q("f.mrt"), q("f.mrt"), q("g.mrt"), q("f.mrt"), q("g.mrt"), q("g.mrt")),
+        # relative update_path (resolved against the working directory at every request), `..` out of a re-pointed link
+        "R %s/h6;%s;D day2/sub;L day1/up ..;U current;%s;%s;P current day2/sub;%s;%s;%s" % (
+            root, day, q("one.mrt"), q("up/day2/two.mrt"), q("one.mrt"), q("../two.mrt"), q("")),
+        # tree ops the file system refuses are skipped by both sides: re-point of a non-link, rename onto an existing name,
+        # rename into itself, remove of a missing name, create below a link, empty / dot components
+        "R %s/h7;%s;U @/current;%s;P day1 day2;M day1 day2;M day1 day1/x;X nosuch;F current/via-link;D day1//x;D day1/./x;D day1/../x;F day1/%%00;%s;"
+        "M day1 day2/moved;%s;%s" % (root, day, q("one.mrt"), q("one.mrt"), q("one.mrt"), q("../day2/moved/one.mrt")),
+    ]
+    return hist + [
         # inside: plain, via '..', via links (relative, absolute, out-and-back), encoded
         "R %s/c0;%s;U @/upd;%s;%s;%s;%s;%s;%s;%s" % (root, t, q("a.mrt"), q("sub/../sub//b.mrt"), q("in"), q("inabs/b.mrt"), q("viaout"),
                                                        q("%73ub%2Fb.mrt"), q("sub/up/upd/a.mrt")),
@@ -287,7 +485,10 @@ ENGINES = [{"name": "c20", "gen": gen, "corpus": corpus, "nontrivial": nontrivia
 EXTRAS = []
 
 LEVEL_TEXT = ("Theorems over every file-system tree (directories, files, symlinks incl. loops and dangling), every configured directory "
-              "text, every query string: acceptance implies that the enqueued path is the realpath of dir/file, is not a symlink and lies "
+              "text, every query string, and every HISTORY of tree changes (create, remove, rename, re-point a symlink - at, above or below "
+              "the configured directory), processor restarts and requests: what is enqueued for a request lies under what the configured "
+              "directory resolves to at the time of that request, a name inside that is accepted, one outside refused; resolving the "
+              "directory once is refuted. Per request: acceptance implies that the enqueued path is the realpath of dir/file, is not a symlink and lies "
               "below the resolved directory through real directory entries only, and the path TEXT put on the queue is byte for byte its own "
               "canonicalisation (observed per entry next to where it resolves); every other request is a 400 with an empty queue; "
               "kernel-checked, axiom-free. The model (query parsing, percent-decoding, push, realpath with its 40-link budget, ancestors) "
